@@ -377,6 +377,29 @@ func runC09(c *Ctx) {
 	ruleR09_3(c)
 	ruleR09_45(c)
 	ruleMemoContextRooted(c, "R09.5")
+	// the route of a request is computed once: library code asks the router through the memoising accessor RouteInfo only —
+	// a stage that calls LookupRoute itself computes a second MatchedRoute the later stages do not see (and they look again)
+	for _, fn := range p.LibFuncs("rt/middleware") {
+		for _, ci := range callsIn(fn, "(*rt/middleware.Context).LookupRoute") {
+			if ci.Parent() != fn {
+				continue
+			}
+			root := fn
+			for root.Parent() != nil {
+				root = root.Parent()
+			}
+			okCaller := fnName(root) == "(*rt/middleware.Context).RouteInfo"
+			if !okCaller && isTransparent(fn) {
+				okCaller = true
+				for _, rt := range rootsOf(fn) {
+					if fnName(rt) != "(*rt/middleware.Context).RouteInfo" {
+						okCaller = false
+					}
+				}
+			}
+			c.obD("R09.5", ci, "route-looked-up-through-the-memo-only", okCaller, "Context.LookupRoute is called by Context.RouteInfo only: every stage obtains the route — and the request that carries it — from the accessor", short(fn.String())+" looks the route up itself: the result is not stored in the request, later stages compute it again")
+		}
+	}
 }
 
 // the one tabled exception of R09.1, checked rather than assumed.
@@ -747,6 +770,22 @@ func ruleR09_45(c *Ctx) {
 					}
 				}
 				c.obI("R09.5", r, "miss-stores-result", okStore, "after computing, the returned request's context carries the result (a later asker holding that request gets a hit)", "the request returned after computing does not carry the result")
+				if m.key == "ctxResponseFormat" && okStore {
+					// … and "nothing to store" means exactly an EMPTY negotiated format: every other outcome is stored, whatever
+					// the request looks like (an absent Accept header included — the first offer is a result like any other)
+					if cv := comps[0].Value(); cv != nil {
+						var stores []ssa.Instruction
+						for _, in := range instrs(f) {
+							if wc, isC := in.(*ssa.Call); isC && calleeName(&wc.Call) == "(*net/http.Request).WithContext" {
+								if okk, _ := allOrigins(wc.Call.Args[1], func(oo Origin) bool { return ctxChainHas(oo.V, wr, 4) }); okk {
+									stores = append(stores, wc)
+								}
+							}
+						}
+						unstored := pathExists(f, comps[0], r, factEqString(vOrigins(oIsValue(cv)), "", true), isOneOf(stores...))
+						c.obI("R09.5", r, "non-empty-result-always-stored", len(stores) > 0 && !unstored, "a negotiated format is left unstored only when it is empty", "a non-empty negotiated format can be returned without being memoised: the next asker negotiates again, against its own offers")
+					}
+				}
 				continue
 			}
 			if !pathExists(f, rd, r, nil, nil) || !guardedBy(r, rd, hit) {
